@@ -275,6 +275,37 @@ func c06notFoundIsNotAnError(c *Ctx) {
 	if held && n == 0 {
 		c.R.Undecided(rule, "core/stores/sqlx.unmarshalRow#not-found", "the not-found return is recognised", "no path returns ErrNotFound")
 	}
+	// (round 8) the many-rows reader: a result set that breaks part-way is an error, not a shorter result — every path
+	// that left the row loop (Next() false) returns what rows.Err() said, or found it nil
+	if g := c.fn(rule, "core/stores/sqlx", "unmarshalRows"); g != nil {
+		gs := c.paths(rule, g, px.Config{MaxVisits: 2, MaxPaths: 200000})
+		ended := 0
+		isNext := func(e *px.Event) bool { return e.Kind == px.EvCall && e.Call.Method != nil && e.Call.Method.Name() == "Next" }
+		h2 := c.forall(rule, "core/stores/sqlx.unmarshalRows#stream-error", "a path that left the row loop returns the scanner's Err() (or has found it nil): a stream that broke part-way is reported, not returned as a shorter slice", g, gs, func(p *px.Path) (bool, string) {
+			if p.Exit != px.ExitReturn || len(p.Results) != 1 {
+				return true, ""
+			}
+			var last *px.Event
+			for _, e := range p.All(isNext) {
+				last = e
+			}
+			if last == nil || p.Abs(last.Res).K != px.False {
+				return true, ""
+			}
+			ended++
+			for _, e := range p.All(px.KindIs(px.EvCall)) {
+				if e.Seq > last.Seq && e.Call.Method != nil && e.Call.Method.Name() == "Err" {
+					if p.Results[0].Strip(false) == e.Res || p.Abs(e.Res).K == px.Nil {
+						return true, ""
+					}
+				}
+			}
+			return false, "the row loop ended and the function returns without the scanner's Err(): a query whose row stream broke returns nil with a truncated result (inside a transaction the body then reports success and the transaction commits)"
+		})
+		if h2 && ended == 0 {
+			c.R.Undecided(rule, "core/stores/sqlx.unmarshalRows#loop-exit", "the exits of the row loop are recognised", "no path saw Next() return false")
+		}
+	}
 }
 
 // c06atomicTTL (C06.R12, round 6): value and TTL travel in ONE command. The two store methods the cache node writes
